@@ -45,6 +45,7 @@ theorem nextNonBlank_append (t : Token K) (l rest : List (Token K)) (ht : t.isNl
   cases t with
   | nl => simp [Token.isNl] at ht
   | int n => simpa [nextNonBlank] using this
+  | intNC n => simpa [nextNonBlank] using this
   | num x => simpa [nextNonBlank] using this
   | word s => simpa [nextNonBlank] using this
 
